@@ -516,6 +516,95 @@ theorem emu_draw_across_resizes (dec : String → G) (cw : String → Nat) (hsp 
       (fun hv => by have := (hfiok.1.2.2.2 hv).2.2; exact_mod_cast this)
 
 
+/-! ### with the parser's grapheme clustering (the wire `opsOfToksM`) -/
+
+open VaxisModel.Lemmas.C12Cluster
+
+/-- `runFramesCK` with the parser's clustering of consecutive text. -/
+def runFramesMK (caps : Caps) (merges : String → String → Bool) (cat : String → String → String) (dec : String → G)
+    (cw : String → Nat) : HState → Emu → List FrameIn → M Emu
+  | _, e, [] => .ok e
+  | s, e, fi :: rest => do
+    let e' ← runOps e (opsOfToksM merges cat dec cw (renderFrameC cw (mkFrame caps s fi)).2)
+    runFramesMK caps merges cat dec cw (stepHC cw caps s fi) e' rest
+
+/-- `runSegs` with the parser's clustering of consecutive text. -/
+def runSegsM (caps : Caps) (merges : String → String → Bool) (cat : String → String → String) (dec : String → G)
+    (cw : String → Nat) : HState → Emu → List Seg → M Emu
+  | _, e, [] => .ok e
+  | s, e, sg :: rest => do
+    let e1 ← runOps e [.resize sg.cols sg.rows]
+    let s1 := afterResize sg.cols sg.rows e1 s
+    let e2 ← runFramesMK caps merges cat dec cw s1 e1 sg.frames
+    runSegsM caps merges cat dec cw (sg.frames.foldl (stepHC cw caps) s1) e2 rest
+
+omit [CapsOk caps] in
+theorem frame_noMerge (merges : String → String → Bool) (cw : String → Nat) (s : HState) (fi : FrameIn)
+    (h : C12.NoMergeGrid merges fi.next) : NoMerge merges (renderFrameC cw (mkFrame caps s fi)).2 := by
+  have hS : ∀ k ∈ (renderFrameC cw (mkFrame caps s fi)).2,
+      TextIn (fun g => g = "20" ∨ ∃ r ∈ fi.next, ∃ c ∈ r, g = c.g) k := by
+    rw [Lemmas.RenderClip.renderFrameC_eq]
+    apply frame_textIn _ (Or.inl rfl)
+    intro r hr c hc
+    obtain ⟨l, hl, rfl⟩ := List.mem_map.mp hr
+    obtain ⟨c0, h0, hc0⟩ := Lemmas.RenderClip.clipRow_mem cw l c hc
+    rcases hc0 with h1 | h1
+    · exact Or.inr ⟨l, hl, c0, h0, by rw [h1]⟩
+    · exact Or.inl (by rw [h1])
+  intro a b ha hb
+  exact h a b (hS _ ha) (hS _ hb)
+
+omit [CapsOk caps] in
+theorem runFramesMK_eq (merges : String → String → Bool) (cat : String → String → String) (dec : String → G) (cw : String → Nat) :
+    ∀ (fis : List FrameIn) (s : HState) (e : Emu), (∀ fi ∈ fis, C12.NoMergeGrid merges fi.next) →
+      runFramesMK caps merges cat dec cw s e fis = runFramesCK caps dec cw s e fis := by
+  intro fis
+  induction fis with
+  | nil => intro s e _; rfl
+  | cons a rest ih =>
+    intro s e h
+    simp only [runFramesMK, runFramesCK]
+    rw [opsOfToksM_eq merges cat dec cw _ (frame_noMerge merges cw s a (h a (by simp)))]
+    cases hr : runOps e (opsOfToks dec cw (renderFrameC cw (mkFrame caps s a)).2) with
+    | error p => rfl
+    | ok e1 =>
+      simp only [bind, Except.bind]
+      exact ih _ e1 (fun fi hfi => h fi (by simp [hfi]))
+
+omit [CapsOk caps] in
+theorem runSegsM_eq (merges : String → String → Bool) (cat : String → String → String) (dec : String → G) (cw : String → Nat) :
+    ∀ (segs : List Seg) (s : HState) (e : Emu), (∀ sg ∈ segs, ∀ fi ∈ sg.frames, C12.NoMergeGrid merges fi.next) →
+      runSegsM caps merges cat dec cw s e segs = runSegs caps dec cw s e segs := by
+  intro segs
+  induction segs with
+  | nil => intro s e _; rfl
+  | cons sg rest ih =>
+    intro s e h
+    simp only [runSegsM, runSegs]
+    cases h1 : runOps e [.resize sg.cols sg.rows] with
+    | error p => rfl
+    | ok e1 =>
+      simp only [bind, Except.bind]
+      rw [runFramesMK_eq merges cat dec cw sg.frames _ e1 (h sg (by simp))]
+      cases h2 : runFramesCK caps dec cw (afterResize sg.cols sg.rows e1 s) e1 sg.frames with
+      | error p => rfl
+      | ok e2 => simp only; exact ih _ e2 (fun x hx => h x (by simp [hx]))
+
+/-- **C12, the composition theorem at its most concrete**: whole histories including resizes, the
+    emulator fed what its parser delivers when it re-segments consecutive text writes (`opsOfToksM`,
+    for whatever `merges` / `cat` the parser implements), any capability set with or without direct
+    colour — for histories in which no two graphemes of a frame (blank included) merge when written
+    back to back (`NoMergeGrid`; necessary: known finding F112d). -/
+theorem emu_shows_across_resizes_clustered (merges : String → String → Bool) (cat : String → String → String)
+    (dec : String → G) (cw : String → Nat) (hsp : cw "20" = 1) (hd : dec "20" = [32]) (hemp : dec "" = [])
+    (segs : List Seg) (rows cols : Nat) (s : HState) (e : Emu) (hl : LinkedR dec cw s e rows cols)
+    (hok : ∀ sg ∈ segs, SegOk caps dec cw sg) (hnm : ∀ sg ∈ segs, ∀ fi ∈ sg.frames, C12.NoMergeGrid merges fi.next) :
+    ∃ e', runSegsM caps merges cat dec cw s e segs = .ok e' ∧
+      ∀ sg, segs.getLast? = some sg → Lemmas.Emu.EmuInv e' sg.rows sg.cols ∧ e'.mode.smcup = true ∧
+        ∀ fi, sg.frames.getLast? = some fi → ShowsCK caps dec cw fi e' := by
+  rw [runSegsM_eq merges cat dec cw segs s e hnm]
+  exact emu_shows_across_resizes dec cw hsp hd hemp segs rows cols s e hl hok
+
 /-! ### the instances: with and without `COLORTERM=truecolor` -/
 
 /-- The capability set of a Vaxis inside the emulator whose environment has `COLORTERM=truecolor`
